@@ -440,7 +440,7 @@ Section Replay.
     - rewrite build_S in Hb.
       destruct (on_stack stack (key_of t)) eqn:Hst.
       + inversion Hb; subst. split; [exact Hov|]. exists []. split; [reflexivity|].
-        intros f' rest st_s Hle Hrel. destruct f' as [|f']; [lia|]. rewrite build_S, Hst.
+        intros f' rest st_s Hle Hrel. destruct f' as [|f']; [inversion Hle|]. rewrite build_S, Hst.
         exists st_s. split; [reflexivity|exact Hrel].
       + destruct (fresh_col st) as [col st1] eqn:Hfc.
         assert (Hov1 : i_over st1 = None) by (unfold fresh_col in Hfc; inversion Hfc; subst; exact Hov).
@@ -448,7 +448,7 @@ Section Replay.
         destruct t as [p d|e|s|m].
         * (* primitive *)
           inversion Hb; subst. split; [exact Hov1|]. exists []. split; [exact Hm1|].
-          intros f' rest st_s Hle Hrel. destruct f' as [|f']; [lia|]. rewrite build_S, Hst.
+          intros f' rest st_s Hle Hrel. destruct f' as [|f']; [inversion Hle|]. rewrite build_S, Hst.
           destruct (fresh_col_rel _ _ _ Hrel) as [Hc Hr]. rewrite Hfc in Hc, Hr. cbn [fst snd] in Hc, Hr.
           destruct (fresh_col st_s) as [col_s st_s1]. cbn [fst snd] in Hc, Hr. subst col_s.
           exists st_s1. split; [reflexivity|exact Hr].
@@ -458,10 +458,10 @@ Section Replay.
           cbn [ftype_in] in Hin.
           destruct (IHf _ e st1 et st' Hbe Hov1 Herr Hin) as [Hov2 [np [Hm2 Hr2]]].
           split; [exact Hov2|]. exists np. split; [rewrite Hm2, Hm1; reflexivity|].
-          intros f' rest st_s Hle Hrel. destruct f' as [|f']; [lia|]. rewrite build_S, Hst.
+          intros f' rest st_s Hle Hrel. destruct f' as [|f']; [inversion Hle|]. rewrite build_S, Hst.
           destruct (fresh_col_rel _ _ _ Hrel) as [Hc Hr]. rewrite Hfc in Hc, Hr. cbn [fst snd] in Hc, Hr.
           destruct (fresh_col st_s) as [col_s st_s1]. cbn [fst snd] in Hc, Hr. subst col_s.
-          destruct (Hr2 f' rest st_s1 ltac:(lia) Hr) as [st_s2 [Hb2 Hrel2]].
+          destruct (Hr2 f' rest st_s1 (le_S_n _ _ Hle) Hr) as [st_s2 [Hb2 Hrel2]].
           rewrite Hb2. exists st_s2. split; [reflexivity|exact Hrel2].
         * (* struct / oneof *)
           cbn [ftype_in] in Hin. apply N.ltb_lt in Hin. fold ns in Hin.
@@ -481,7 +481,7 @@ Section Replay.
           (* same field list on the new side *)
           assert (Hflds : firstn (N.to_nat fc) (s_fields (get_struct new s)) = firstn (N.to_nat fc) (s_fields sd)).
           { rewrite Ef. rewrite firstn_app.
-            replace (N.to_nat fc - length (s_fields sd))%nat with 0%nat by (unfold own in Hge; lia).
+            replace (N.to_nat fc - length (s_fields sd))%nat with 0%nat by (unfold own in Hge; clear - Hge; lia).
             cbn [firstn]. apply app_nil_r. }
           unfold field_count in Hfcnt. rewrite Hov1 in Hfcnt.
           destruct (memo_find (i_memo st1) s) as [c|] eqn:Hmemo.
@@ -489,15 +489,15 @@ Section Replay.
             inversion Hfcnt; subst fc st2. clear Hfcnt.
             destruct (fold_replay f IHf _ _ _ _ _ _ Hfold Hov1 Herr Hcl) as [Hov4 [np [Hm4 Hr4]]].
             split; [exact Hov4|]. exists np. split; [rewrite Hm4, Hm1; reflexivity|].
-            intros f' rest st_s Hle Hrel. destruct f' as [|f']; [lia|]. rewrite build_S, Hst.
+            intros f' rest st_s Hle Hrel. destruct f' as [|f']; [inversion Hle|]. rewrite build_S, Hst.
             destruct (fresh_col_rel _ _ _ Hrel) as [Hc Hr]. rewrite Hfc in Hc, Hr. cbn [fst snd] in Hc, Hr.
             destruct (fresh_col st_s) as [col_s st_s1]. cbn [fst snd] in Hc, Hr. subst col_s.
             cbv zeta. unfold field_count.
             destruct Hr as [R1 [R2 [R3 R4]]]. rewrite R2, Hmemo.
             destruct (N.ltb_spec (N.of_nat (length (s_fields (get_struct new s)))) c) as [Hbad|_].
-            { rewrite Ef, app_length in Hbad. unfold own in Hge. lia. }
+            { rewrite Ef, app_length in Hbad. unfold own in Hge. clear - Hbad Hge. lia. }
             rewrite Hflds.
-            destruct (Hr4 f' rest st_s1 ltac:(lia) (conj R1 (conj R2 (conj R3 R4)))) as [st_s4 [Hb4 Hrel4]].
+            destruct (Hr4 f' rest st_s1 (le_S_n _ _ Hle) (conj R1 (conj R2 (conj R3 R4)))) as [st_s4 [Hb4 Hrel4]].
             rewrite Hb4. exists st_s4. split; [|exact Hrel4].
             rewrite Eo, Ed. reflexivity.
           -- (* first encounter: the replay takes the count from the override *)
@@ -507,19 +507,19 @@ Section Replay.
             destruct (fold_replay f IHf _ _ _ _ _ _ Hfold Hov2 Herr Hcl) as [Hov4 [np [Hm4 Hr4]]].
             split; [exact Hov4|]. exists (np ++ [(s, own)]). split.
             { rewrite Hm4. unfold st2. cbn [i_memo]. rewrite Hm1, <- app_assoc. reflexivity. }
-            intros f' rest st_s Hle Hrel. destruct f' as [|f']; [lia|]. rewrite build_S, Hst.
+            intros f' rest st_s Hle Hrel. destruct f' as [|f']; [inversion Hle|]. rewrite build_S, Hst.
             destruct (fresh_col_rel _ _ _ Hrel) as [Hc Hr]. rewrite Hfc in Hc, Hr. cbn [fst snd] in Hc, Hr.
             destruct (fresh_col st_s) as [col_s st_s1]. cbn [fst snd] in Hc, Hr. subst col_s.
             cbv zeta. unfold field_count.
             destruct Hr as [R1 [R2 [R3 R4]]]. rewrite R2, Hmemo, R4.
             rewrite map_app, rev_app_distr in *. cbn [map rev app snd].
             destruct (N.ltb_spec (N.of_nat (length (s_fields (get_struct new s)))) own) as [Hbad|_].
-            { rewrite Ef, app_length in Hbad. unfold own in Hbad. lia. }
+            { rewrite Ef, app_length in Hbad. unfold own in Hbad. clear - Hbad. lia. }
             rewrite Hflds.
             assert (Hrel2 : st_rel st2 (mkIst (i_next st_s1) (Some (rev (map snd np) ++ rest)) ((s, own) :: i_memo st1) (i_err st_s1))
                                    (rev (map snd np) ++ rest)).
             { unfold st_rel, st2. cbn. rewrite R1. repeat split. exact R3. }
-            destruct (Hr4 f' rest _ ltac:(lia) Hrel2) as [st_s4 [Hb4 Hrel4]].
+            destruct (Hr4 f' rest _ (le_S_n _ _ Hle) Hrel2) as [st_s4 [Hb4 Hrel4]].
             rewrite Hb4. exists st_s4. split; [|exact Hrel4].
             rewrite Eo, Ed. reflexivity.
         * (* multimap *)
@@ -533,13 +533,318 @@ Section Replay.
           destruct (IHf _ _ st1 kt st2 Hbk Hov1 He2 Ck) as [Hov2 [np1 [Hm2 Hr2]]].
           destruct (IHf _ _ st2 vt st3 Hbv Hov2 Herr Cv) as [Hov3 [np2 [Hm3 Hr3]]].
           split; [exact Hov3|]. exists (np2 ++ np1). split; [rewrite Hm3, Hm2, Hm1, app_assoc; reflexivity|].
-          intros f' rest st_s Hle Hrel. destruct f' as [|f']; [lia|]. rewrite build_S, Hst.
+          intros f' rest st_s Hle Hrel. destruct f' as [|f']; [inversion Hle|]. rewrite build_S, Hst.
           destruct (fresh_col_rel _ _ _ Hrel) as [Hc Hr]. rewrite Hfc in Hc, Hr. cbn [fst snd] in Hc, Hr.
           destruct (fresh_col st_s) as [col_s st_s1]. cbn [fst snd] in Hc, Hr. subst col_s.
           cbv zeta. rewrite Em.
           rewrite map_app, rev_app_distr, <- app_assoc in Hr.
-          destruct (Hr2 f' _ st_s1 ltac:(lia) Hr) as [st_s2 [Hb2 Hrel2]].
-          destruct (Hr3 f' rest st_s2 ltac:(lia) Hrel2) as [st_s3 [Hb3 Hrel3]].
+          destruct (Hr2 f' _ st_s1 (le_S_n _ _ Hle) Hr) as [st_s2 [Hb2 Hrel2]].
+          destruct (Hr3 f' rest st_s2 (le_S_n _ _ Hle) Hrel2) as [st_s3 [Hb3 Hrel3]].
           rewrite Hb2, Hb3. exists st_s3. split; [reflexivity|exact Hrel3].
   Qed.
 End Replay.
+
+(* ------------------------------------------------------------------ root level *)
+Lemma own_counts_memo : forall sc root, own_counts sc root = rev (map snd (i_memo (snd (build_root sc root None)))).
+Proof. reflexivity. Qed.
+
+Lemma root_fuel_mono : forall old new, evolves old new = true ->
+  ((S (S (length (structs old) + length (multimaps old)))) * 3 <= (S (S (length (structs new) + length (multimaps new)))) * 3)%nat.
+Proof.
+  intros old new H. unfold evolves in H. apply andb_true_iff in H. destruct H as [H1 H2].
+  apply list_rel_length in H1. apply list_rel_length in H2. lia.
+Qed.
+
+(* the traversal of [new] under the wire schema of [old] is the traversal of [old]: same tree,
+   every count consumed, nothing missing *)
+Theorem build_root_replay : forall old new root,
+  schema_closed old = true -> evolves old new = true -> root < N.of_nat (length (structs old)) ->
+  forall t ist, build_root old root None = (t, ist) -> i_err ist = false ->
+  exists ist_s, build_root new root (Some (own_counts old root)) = (t, ist_s) /\
+                i_err ist_s = false /\ i_over ist_s = Some [] /\ i_memo ist_s = i_memo ist.
+Proof.
+  intros old new root Hc He Hr t ist Hb Herr.
+  unfold build_root in Hb.
+  assert (Hin : ftype_in (N.of_nat (length (structs old))) (N.of_nat (length (multimaps old))) (TStruct root) = true)
+    by (cbn [ftype_in]; apply N.ltb_lt; exact Hr).
+  destruct (build_replay old new Hc He _ _ _ _ _ _ Hb eq_refl Herr Hin) as [_ [np [Hm Hrep]]].
+  cbn [i_memo] in Hm. rewrite app_nil_r in Hm.
+  assert (Hown : own_counts old root = rev (map snd np)).
+  { rewrite own_counts_memo. unfold build_root. rewrite Hb. cbn [snd]. rewrite Hm. reflexivity. }
+  destruct (Hrep _ [] (mkIst 1%positive (Some (own_counts old root)) [] false) (root_fuel_mono _ _ He)) as [ist_s [Hbs [R1 [R2 [R3 R4]]]]].
+  { unfold st_rel. cbn. rewrite Hown, app_nil_r. repeat split. }
+  exists ist_s. unfold build_root. rewrite Hbs. repeat split; assumption.
+Qed.
+
+Lemma build_root_none_over : forall sc root t ist,
+  schema_closed sc = true -> root < N.of_nat (length (structs sc)) ->
+  build_root sc root None = (t, ist) -> i_err ist = false -> all_fetched ist = true.
+Proof.
+  intros sc root t ist Hc Hr Hb Herr. unfold build_root in Hb.
+  assert (Hin : ftype_in (N.of_nat (length (structs sc))) (N.of_nat (length (multimaps sc))) (TStruct root) = true)
+    by (cbn [ftype_in]; apply N.ltb_lt; exact Hr).
+  destruct (build_replay sc sc Hc (evolves_refl sc) _ _ _ _ _ _ Hb eq_refl Herr Hin) as [Hov _].
+  unfold all_fetched. rewrite Hov. reflexivity.
+Qed.
+
+Lemma own_counts_length : forall sc root, length (own_counts sc root) = length (i_memo (snd (build_root sc root None))).
+Proof. intros. rewrite own_counts_memo, rev_length, map_length. reflexivity. Qed.
+
+Lemma evolves_root_in_range : forall old new root, evolves old new = true ->
+  root < N.of_nat (length (structs old)) -> root < N.of_nat (length (structs new)).
+Proof.
+  intros old new root H Hr. unfold evolves in H. apply andb_true_iff in H. destruct H as [H1 _].
+  apply list_rel_length in H1. lia.
+Qed.
+
+(* a writer told to write the wire schema of an ancestor [old] of its own schema [new] is created,
+   announces that schema, and encodes with the ancestor's tree (covers old = new: its own schema) *)
+Lemma new_writer_with_ancestor_schema : forall v old new root md,
+  schema_closed old = true -> evolves old new = true -> root < N.of_nat (length (structs old)) ->
+  build_ok old root = true ->
+  is_incompat (compat3 v (own_counts new root) (own_counts old root)) = false ->
+  new_writer v new root (mkWopts (Some (own_counts old root)) true md) =
+  Some (fst (build_root old root None), Some (own_counts old root)).
+Proof.
+  intros v old new root md Hc He Hr Hok Hcompat.
+  unfold new_writer. cbn [o_schema]. rewrite Hcompat.
+  destruct (build_root old root None) as [t ist] eqn:Hb.
+  unfold build_ok in Hok. rewrite Hb in Hok. cbn [snd] in Hok. apply negb_true_iff in Hok.
+  destruct (build_root_replay old new root Hc He Hr t ist Hb Hok) as [ist_s [Hbs [E1 [E2 E3]]]].
+  rewrite Hbs. unfold exhausted, all_fetched. rewrite E2, E3.
+  rewrite own_counts_length, Hb. cbn [snd fst]. rewrite Nat.ltb_irrefl. reflexivity.
+Qed.
+
+(* a server whose schema [new] descends from [old] opens a stream announcing [old]'s wire schema
+   with [old]'s tree *)
+Lemma server_open_ancestor_descriptor : forall v old new root,
+  schema_closed old = true -> evolves old new = true -> root < N.of_nat (length (structs old)) ->
+  build_ok old root = true ->
+  is_incompat (compat3 v (own_counts new root) (own_counts old root)) = false ->
+  server_open v new root (Some (own_counts old root)) = Some (fst (build_root old root None)).
+Proof.
+  intros v old new root Hc He Hr Hok Hcompat.
+  unfold server_open. rewrite Hcompat.
+  destruct (build_root old root None) as [t ist] eqn:Hb.
+  unfold build_ok in Hok. rewrite Hb in Hok. cbn [snd] in Hok. apply negb_true_iff in Hok.
+  destruct (build_root_replay old new root Hc He Hr t ist Hb Hok) as [ist_s [Hbs [E1 [E2 E3]]]].
+  rewrite Hbs, E1. unfold all_fetched. rewrite E2. reflexivity.
+Qed.
+
+(* without a descriptor both sides use their own trees; they coincide when the server descends
+   from the client and the wire schemas are the same list *)
+Lemma same_counts_same_tree : forall old new root,
+  schema_closed old = true -> schema_closed new = true -> evolves old new = true ->
+  root < N.of_nat (length (structs old)) ->
+  build_ok old root = true -> build_ok new root = true ->
+  own_counts old root = own_counts new root ->
+  fst (build_root new root None) = fst (build_root old root None).
+Proof.
+  intros old new root Hco Hcn He Hr Hoko Hokn Heq.
+  destruct (build_root old root None) as [t ist] eqn:Hb.
+  destruct (build_root new root None) as [t' ist'] eqn:Hb'.
+  unfold build_ok in Hoko, Hokn. rewrite Hb in Hoko. rewrite Hb' in Hokn. cbn [snd] in *.
+  apply negb_true_iff in Hoko. apply negb_true_iff in Hokn.
+  destruct (build_root_replay old new root Hco He Hr t ist Hb Hoko) as [i1 [H1 _]].
+  destruct (build_root_replay new new root Hcn (evolves_refl new) (evolves_root_in_range _ _ _ He Hr) t' ist' Hb' Hokn) as [i2 [H2 _]].
+  rewrite Heq in H1. rewrite H1 in H2. inversion H2. reflexivity.
+Qed.
+
+(* ------------------------------------------------------------------ what holds *)
+(* server not behind the client (identical wire schemas, or server ahead by the code's criterion)
+   and the server's schema descends from the client's: Connect succeeds, the writer is created,
+   the server's reader opens the stream with exactly the client's encoder tree *)
+Theorem handshake_sound_server_not_behind : forall v scc scs root md,
+  schema_closed scc = true -> evolves scc scs = true -> root < N.of_nat (length (structs scc)) ->
+  build_ok scc root = true ->
+  let cs := own_counts scc root in
+  let ss := own_counts scs root in
+  (cs = ss /\ schema_closed scs = true /\ build_ok scs root = true) \/ compat3 v ss cs = CSuperset ->
+  exists o descr t,
+    connect v cs ss md = Some o /\ o_maxdict o = md /\
+    new_writer v scc root o = Some (t, descr) /\
+    server_open v scs root descr = Some t.
+Proof.
+  intros v scc scs root md Hc He Hr Hok cs ss [[Heq [Hcs Hoks]]|Hsup].
+  - exists (mkWopts None false md), None, (fst (build_root scc root None)).
+    split; [unfold cs, ss in *; rewrite <- Heq; apply connect_same|]. split; [reflexivity|]. split.
+    + unfold new_writer. cbn [o_schema o_descr]. destruct (build_root scc root None); reflexivity.
+    + unfold server_open.
+      pose proof (same_counts_same_tree scc scs root Hc Hcs He Hr Hok Hoks Heq) as Ht.
+      unfold build_ok in Hoks. destruct (build_root scs root None) as [t' ist'] eqn:Hb'. cbn [snd fst] in *.
+      apply negb_true_iff in Hoks.
+      rewrite Hoks, (build_root_none_over scs root t' ist' Hcs (evolves_root_in_range _ _ _ He Hr) Hb' Hoks).
+      cbn [orb negb]. rewrite Ht. reflexivity.
+  - exists (mkWopts (Some cs) true md), (Some cs), (fst (build_root scc root None)).
+    split; [unfold connect; fold cs ss; rewrite Hsup; reflexivity|]. split; [reflexivity|]. split.
+    + apply new_writer_with_ancestor_schema; try assumption; [apply evolves_refl|].
+      rewrite compat3_refl. reflexivity.
+    + apply server_open_ancestor_descriptor; try assumption. fold cs ss. rewrite Hsup. reflexivity.
+Qed.
+
+(* what the client-superset branch would give if it handed the SERVER's schema to the writer
+   (the behaviour its comment describes): the writer downgrades and the server decodes *)
+Theorem intended_connect_sound_client_ahead : forall v scc scs root md,
+  schema_closed scs = true -> evolves scs scc = true -> root < N.of_nat (length (structs scs)) ->
+  build_ok scs root = true ->
+  let cs := own_counts scc root in
+  let ss := own_counts scs root in
+  compat3 v ss cs = CIncompat -> compat3 v cs ss = CSuperset ->
+  exists o t,
+    connect_intended v cs ss md = Some o /\
+    new_writer v scc root o = Some (t, Some ss) /\
+    server_open v scs root (Some ss) = Some t.
+Proof.
+  intros v scc scs root md Hc He Hr Hok cs ss H1 H2.
+  exists (mkWopts (Some ss) true md), (fst (build_root scs root None)).
+  split; [unfold connect_intended; fold cs ss; rewrite H1, H2; reflexivity|]. split.
+  - apply new_writer_with_ancestor_schema; try assumption. fold cs ss. rewrite H2. reflexivity.
+  - apply server_open_ancestor_descriptor; try assumption; [apply evolves_refl|].
+    rewrite compat3_refl. reflexivity.
+Qed.
+
+(* the server is behind by the code's criterion: Connect and the writer go ahead, announcing the
+   client's schema, and the server's reader refuses the stream - nothing is decoded wrongly *)
+Theorem server_behind_refused_at_reader : forall v scc rc scs rs md o t descr,
+  let cs := own_counts scc rc in
+  let ss := own_counts scs rs in
+  compat3 v ss cs = CIncompat ->
+  connect v cs ss md = Some o -> new_writer v scc rc o = Some (t, descr) ->
+  descr = Some cs /\ server_open v scs rs descr = None.
+Proof.
+  intros v scc rc scs rs md o t descr cs ss Hinc Hconn Hw.
+  unfold connect in Hconn. fold cs ss in Hconn. rewrite Hinc in Hconn.
+  destruct (incompat_then_reverse _ _ _ Hinc) as [Hs|[_ [_ [_ [_ Hi]]]]]; [|rewrite Hi in Hconn; discriminate].
+  rewrite Hs in Hconn. inversion Hconn; subst o. clear Hconn.
+  unfold new_writer in Hw. cbn [o_schema] in Hw. fold cs in Hw.
+  destruct (is_incompat (compat3 v cs cs)); [discriminate|].
+  destruct (build_root scc rc (Some cs)) as [t' ist].
+  destruct (exhausted cs ist || negb (all_fetched ist)); [discriminate|].
+  inversion Hw; subst. split; [reflexivity|].
+  unfold server_open. fold ss. rewrite Hinc. reflexivity.
+Qed.
+
+(* ------------------------------------------------------------------ what does not hold *)
+Definition u64 : field := mkField (TPrim PUint64 None) false.
+Definition str : field := mkField (TPrim PString None) false.
+
+(* D9.  server: struct R root { a uint64 }   client: struct R root { a uint64; b uint64 } *)
+Definition d9_server : schema := mkSchema [mkSdef false None [u64]] [].
+Definition d9_client : schema := mkSchema [mkSdef false None [u64; u64]] [].
+
+Lemma d9_client_ahead_refused : forall v md,
+  evolves d9_server d9_client = true /\ schema_closed d9_server = true /\ schema_closed d9_client = true /\
+  handshake v d9_client 0 d9_server 0 md = OServerRefused (mkWopts (Some [2]) true md) (Some [2]).
+Proof. intros [] md; repeat split; vm_compute; reflexivity. Qed.
+
+(* ... while handing the server's schema to the writer would have worked *)
+Lemma d9_intended_works : forall v md, exists o t,
+  connect_intended v (own_counts d9_client 0) (own_counts d9_server 0) md = Some o /\
+  new_writer v d9_client 0 o = Some (t, Some [1]) /\ server_open v d9_server 0 (Some [1]) = Some t.
+Proof.
+  intros v md. exists (mkWopts (Some [1]) true md), (fst (build_root d9_server 0 None)).
+  destruct v; repeat split; vm_compute; reflexivity.
+Qed.
+
+(* D9b.  R { a X; b Y }  with  client X{2} Y{1}  /  server X{1} Y{2}: wire schemas [2;2;1] and [2;1;2] *)
+Definition d9b_client : schema :=
+  mkSchema [mkSdef false None [mkField (TStruct 1) false; mkField (TStruct 2) false];
+            mkSdef false None [u64; u64]; mkSdef false None [u64]] [].
+Definition d9b_server : schema :=
+  mkSchema [mkSdef false None [mkField (TStruct 1) false; mkField (TStruct 2) false];
+            mkSdef false None [u64]; mkSdef false None [u64; u64]] [].
+
+Lemma d9b_pinned_streams_with_wrong_layout : forall md,
+  evolves d9b_client d9b_server = false /\ evolves d9b_server d9b_client = false /\
+  own_counts d9b_client 0 = [2; 2; 1] /\ own_counts d9b_server 0 = [2; 1; 2] /\
+  handshake VPinned d9b_client 0 d9b_server 0 md = OStream (mkWopts None false md) None false.
+Proof. intros md; repeat split; vm_compute; reflexivity. Qed.
+
+Lemma d9b_current_refused : forall md, handshake VCurrent d9b_client 0 d9b_server 0 md = OConnectRefused.
+Proof. intros md; vm_compute; reflexivity. Qed.
+
+(* unrelated schemas that the handshake does not refuse (either version): [1;5] against [7] *)
+Definition unrel_client : schema :=
+  mkSchema [mkSdef false None [mkField (TStruct 1) false]; mkSdef false None [u64; u64; u64; u64; u64]] [].
+Definition unrel_server : schema := mkSchema [mkSdef false None [str; str; str; str; str; str; str]] [].
+
+Lemma unrelated_not_refused_by_connect : forall v md,
+  evolves unrel_client unrel_server = false /\ evolves unrel_server unrel_client = false /\
+  handshake v unrel_client 0 unrel_server 0 md = OServerRefused (mkWopts (Some [1; 5]) true md) (Some [1; 5]).
+Proof. intros [] md; repeat split; vm_compute; reflexivity. Qed.
+
+(* the inherent limit of a protocol that exchanges field counts only *)
+Definition limit_client : schema := mkSchema [mkSdef false None [u64]] [].
+Definition limit_server : schema := mkSchema [mkSdef false None [str]] [].
+
+Lemma same_counts_indistinguishable : forall v md,
+  own_counts limit_client 0 = own_counts limit_server 0 /\
+  handshake v limit_client 0 limit_server 0 md = OStream (mkWopts None false md) None false.
+Proof. intros [] md; split; vm_compute; reflexivity. Qed.
+
+(* why the repair of D9b is NOT an element-wise "new[i] >= old[i]": a legal evolution can move a
+   struct forward in first-encounter order.  old: R{a X; b Y; c Z} X{1} Y{3} Z{1};
+   new: X gets a field of type Z.  Wire schemas [3;1;3;1] and [3;2;1;3]. *)
+Definition shift_old : schema :=
+  mkSchema [mkSdef false None [mkField (TStruct 1) false; mkField (TStruct 2) false; mkField (TStruct 3) false];
+            mkSdef false None [u64]; mkSdef false None [u64; u64; u64]; mkSdef false None [u64]] [].
+Definition shift_new : schema :=
+  mkSchema [mkSdef false None [mkField (TStruct 1) false; mkField (TStruct 2) false; mkField (TStruct 3) false];
+            mkSdef false None [u64; mkField (TStruct 3) false]; mkSdef false None [u64; u64; u64]; mkSdef false None [u64]] [].
+
+Lemma elementwise_order_is_not_necessary : forall v md,
+  evolves shift_old shift_new = true /\
+  own_counts shift_old 0 = [3; 1; 3; 1] /\ own_counts shift_new 0 = [3; 2; 1; 3] /\
+  handshake v shift_old 0 shift_new 0 md = OStream (mkWopts (Some [3; 1; 3; 1]) true md) (Some [3; 1; 3; 1]) true /\
+  nth 2 (own_counts shift_new 0) 0 < nth 2 (own_counts shift_old 0) 0.
+Proof. intros [] md; repeat split; vm_compute; reflexivity. Qed.
+
+(* the full-strength statements of the property, and their refutations *)
+Definition related (a b : schema) : Prop := evolves a b = true \/ evolves b a = true.
+
+Definition sound_statement (v : version) : Prop :=
+  forall scc rc scs rs md o t descr, related scc scs ->
+    connect v (own_counts scc rc) (own_counts scs rs) md = Some o ->
+    new_writer v scc rc o = Some (t, descr) ->
+    server_open v scs rs descr = Some t.
+
+Definition rejects_statement (v : version) : Prop :=
+  forall scc rc scs rs md o, ~ related scc scs ->
+    connect v (own_counts scc rc) (own_counts scs rs) md = Some o ->
+    new_writer v scc rc o = None.
+
+Theorem sound_refuted : forall v, ~ sound_statement v.
+Proof.
+  intros v H.
+  destruct (d9_client_ahead_refused v 0) as [He [_ [_ Hh]]].
+  unfold handshake in Hh.
+  destruct (connect v (own_counts d9_client 0) (own_counts d9_server 0) 0) as [o|] eqn:Hc; [|discriminate].
+  destruct (new_writer v d9_client 0 o) as [[t d]|] eqn:Hw; [|discriminate].
+  specialize (H d9_client 0 d9_server 0 0 o t d (or_intror He) Hc Hw).
+  rewrite H in Hh. discriminate.
+Qed.
+
+Theorem rejects_refuted : forall v, ~ rejects_statement v.
+Proof.
+  intros v H.
+  destruct (unrelated_not_refused_by_connect v 0) as [E1 [E2 Hh]].
+  unfold handshake in Hh.
+  destruct (connect v (own_counts unrel_client 0) (own_counts unrel_server 0) 0) as [o|] eqn:Hc; [|discriminate].
+  assert (Hn : ~ related unrel_client unrel_server) by (intros [X|X]; congruence).
+  specialize (H unrel_client 0 unrel_server 0 0 o Hn Hc). rewrite H in Hh. discriminate.
+Qed.
+
+(* the pinned code lets diverged schemas with equal sums through as "exact": data flows and the
+   server decodes it with a different layout *)
+Theorem pinned_diverged_streams : exists scc scs md o,
+  ~ related scc scs /\ handshake VPinned scc 0 scs 0 md = OStream o None false.
+Proof.
+  exists d9b_client, d9b_server, 0, (mkWopts None false 0).
+  destruct (d9b_pinned_streams_with_wrong_layout 0) as [E1 [E2 [_ [_ H]]]].
+  split; [intros [X|X]; congruence|exact H].
+Qed.
+
+(* after the repair: equal length, equal sums, different lists are refused by Connect itself *)
+Theorem current_diverged_equal_sums_refused : forall cs ss md,
+  length cs = length ss -> sum_counts cs = sum_counts ss -> cs <> ss -> connect VCurrent cs ss md = None.
+Proof. intros cs ss md L S N. apply connect_current_refuses_iff. repeat split; assumption. Qed.
